@@ -48,6 +48,7 @@ type Engine struct {
 	maxSteps, maxBranches, maxDepth, maxAlloc, maxConcreteAlloc int
 	allMapOrders, ignoreGo, symFloatFree                        bool
 	solverKind, logic                                           string
+	forbidEvents                                                []string
 	queryTimeoutMs                                              int
 	params                                                      map[string]int
 	collisionFree                                               map[string]bool // UF names with injectivity axiom
@@ -510,6 +511,19 @@ func (in *Interp) runPath(fn *ssa.Function, prefix []int) (pr PathResult) {
 		pr.funcs = ps.funcsSeen
 		for _, t := range ps.inputs {
 			pr.inputs = append(pr.inputs, t.name)
+		}
+		for _, ev := range ps.events {
+			for _, fb := range e.forbidEvents {
+				if strings.Contains(ev, fb) && !ps.forbidReported[ev] {
+					if ps.forbidReported == nil {
+						ps.forbidReported = map[string]bool{}
+					}
+					ps.forbidReported[ev] = true
+					if v := in.mkViolation(fn, "event", "forbidden event: "+ev, ""); v != nil {
+						pr.violations = append(pr.violations, *v)
+					}
+				}
+			}
 		}
 		if r != nil {
 			switch x := r.(type) {
